@@ -343,7 +343,8 @@ def pp(e):
         s = " ".join(["break"] * (e["lv"] + 1))
         return "(%s%s)" % (s, "" if e["e"]["n"] == "none" else " " + pp(e["e"]))
     if n == "cont":
-        return "(%s)" % " ".join(["continue"] * (e["lv"] + 1))
+        # continuing the k-th enclosing loop is written  break ... break continue
+        return "(%s)" % " ".join(["break"] * e["lv"] + ["continue"])
     if n == "ret":
         return "(return %s)" % pp(e["e"])
     if n == "throw":
@@ -359,11 +360,11 @@ def pp(e):
             ps.append(s)
         return "(\\%s -> %s)" % (", ".join(ps), pp(e["b"]))
     if n == "decl":
-        return "%s := %s" % (p_lv(e["x"]), pp(e["e"]))
+        return "(%s := %s)" % (p_lv(e["x"]), pp(e["e"]))
     if n == "asg":
-        return "%s%s = %s" % ("every " if e["every"] else "", p_target(e["x"]), pp(e["e"]))
+        return "(%s%s = %s)" % ("every " if e["every"] else "", p_target(e["x"]), pp(e["e"]))
     if n == "opasg":
-        return "%s%s %s= %s" % ("every " if e["every"] else "", p_target(e["x"]), e["op"], pp(e["e"]))
+        return "(%s%s %s= %s)" % ("every " if e["every"] else "", p_target(e["x"]), e["op"], pp(e["e"]))
     if n == "pop":
         return "(pop %s)" % p_target(e["x"])
     if n == "remove":
@@ -371,7 +372,7 @@ def pp(e):
     if n == "consume":
         return "(consume %s)" % p_target(e["x"])
     if n == "swap":
-        return "swap %s, %s" % (p_target(e["a"]), p_target(e["b"]))
+        return "(swap %s, %s)" % (p_target(e["a"]), p_target(e["b"]))
     if n == "upd":
         return "(%s){%s = %s}" % (pp(e["e"]), pp(e["k"]), pp(e["v"]))
     raise ValueError(n)
